@@ -327,5 +327,88 @@ func main() {
 		judge(w, s)
 	}
 	res.Extra["mutants"] = mut
+	// nesting: the only way to make the front end's parse stack deep is bracket nesting in a
+	// lexical pattern (all lists of the grammar are left-recursive). Depths run past the
+	// stack's initial capacity and its first doublings; each sentence is also judged with one
+	// closing bracket removed and with one extra.
+	idx := map[string]int{}
+	for i, n := range alphaN {
+		idx[n] = i
+	}
+	need := []string{"tokId", ":", ";", "char_lit", "|", "(", ")", "[", "]", "{", "}"}
+	haveAll := true
+	for _, n := range need {
+		if _, ok := idx[n]; !ok {
+			haveAll = false
+		}
+	}
+	if !haveAll {
+		res.Inconclusive = append(res.Inconclusive, "the front end's token names are not the ones the nesting stratum knows")
+	} else {
+		depths := []int{}
+		for k := 1; k <= 70; k++ {
+			depths = append(depths, k)
+		}
+		depths = append(depths, 97, 98, 99, 100, 101, 102, 127, 128, 129, 150, 199, 200, 201, 260)
+		if mode == "thorough" {
+			for k := 71; k <= 420; k++ {
+				depths = append(depths, k)
+			}
+		}
+		open := []string{"(", "[", "{"}
+		closeOf := map[string]string{"(": ")", "[": "]", "{": "}"}
+		nest, maxDepth := 0, 0
+		for _, k := range depths {
+			for shape := 0; shape < 3; shape++ {
+				seq := []int{idx["tokId"], idx[":"]}
+				var closers []string
+				for d := 0; d < k; d++ {
+					o := open[r.Intn(3)]
+					switch shape {
+					case 0: // x ( x ( ...
+						seq = append(seq, idx["char_lit"], idx[o])
+					case 1: // x | y ( ...
+						seq = append(seq, idx["char_lit"], idx["|"], idx["char_lit"], idx[o])
+					case 2: // ( ( ( ...
+						seq = append(seq, idx[o])
+					}
+					closers = append(closers, closeOf[o])
+				}
+				seq = append(seq, idx["char_lit"])
+				for d := len(closers) - 1; d >= 0; d-- {
+					seq = append(seq, idx[closers[d]])
+					if shape == 1 && r.Intn(2) == 0 {
+						seq = append(seq, idx["char_lit"])
+					}
+				}
+				seq = append(seq, idx[";"])
+				res.Evaluations++
+				nest++
+				if judge(w, seq) {
+					res.Nontrivial++
+				}
+				if m := lr.Parse(func() []int {
+					ids := make([]int, len(seq))
+					for i, a := range seq {
+						ids[i] = alphaID[a]
+					}
+					return ids
+				}(), model.ParseOpts{FailAt: -1}); m.MaxDepth > maxDepth {
+					maxDepth = m.MaxDepth
+				}
+				// one closer dropped / one doubled
+				at := len(seq) - 2 - r.Intn(k)
+				if at > 2 {
+					drop := append(append([]int(nil), seq[:at]...), seq[at+1:]...)
+					dbl := append(append(append([]int(nil), seq[:at]...), seq[at]), seq[at:]...)
+					res.Evaluations += 2
+					judge(w, drop)
+					judge(w, dbl)
+				}
+			}
+		}
+		res.Extra["nesting_sentences"] = nest
+		res.Extra["nesting_max_reference_stack_depth"] = maxDepth
+	}
 	res.Exhaustive = false
 }
